@@ -52,6 +52,7 @@ class C11(vlib.Check):
         return {'': ['-DH_FMT_STRING_ONLY']}
 
     def gen(self, rng, tier):
+        yield 'shutdown'      # use of the library during program / thread shutdown (harness probe)
         quick = tier == 'quick'
         per = 24 if quick else 400
         pool = {}
